@@ -274,7 +274,7 @@ def run_gen(case, want_obs=True):
         if mode == "exists":
             out.mkdir()
             (out / "keep.txt").write_text("user file")
-        cf = ConfigFile(post_hooks=[])
+        cf = ConfigFile(post_hooks=[], literal_enums=bool(case.get("literal_enums", False)))
         config = Config.from_sources(cf, MetaType(case.get("meta", "none")), p, "utf-8", bool(case.get("overwrite", False)), output_path=out)
         _reset()
         before = listing(out)
@@ -438,7 +438,7 @@ def run_shrink(case):
 
     def crashes(doc):
         try:
-            r = run_gen({"text": json.dumps(doc), "suffix": case.get("suffix", ".json"), "out": case.get("out", "fresh")}, want_obs=False)
+            r = run_gen({"text": json.dumps(doc), "suffix": case.get("suffix", ".json"), "out": case.get("out", "fresh"), "literal_enums": case.get("literal_enums", False)}, want_obs=False)
         except Exception:
             return False
         return r["exc"] is not None and r["exc"][:2] == target
